@@ -4,13 +4,13 @@
 # and runs the property's check against it.  Nothing is applied to /repo itself.
 D="$1"; PID="$2"; TIER="${3:-quick}"
 WT=$(mktemp -d /tmp/try_XXXXXX); rmdir $WT
-git -C /repo worktree add --detach $WT HEAD -q || exit 2
+git -C /repo worktree add --detach $WT ${BASE:-HEAD} -q || exit 2
 cd $WT
 PYTHONPATH=$WT /venv/bin/python $D/demo.py > $WT/.demo0.log 2>&1; echo "demo without change: exit $?"
-git apply $D/patch.diff || { echo "PATCH DOES NOT APPLY"; git -C /repo worktree remove --force $WT; exit 2; }
+git apply $D/patch.diff 2>/dev/null || git apply --3way $D/patch.diff || { echo "PATCH DOES NOT APPLY"; git -C /repo worktree remove --force $WT; exit 2; }
 /venv/bin/python -m pytest -q -p no:cacheprovider --timeout=900 2>&1 | tail -1 | sed 's/\x1b\[[0-9;]*m//g' | sed 's/^/tests with change: /'
 PYTHONPATH=$WT /venv/bin/python $D/demo.py > $WT/.demo1.log 2>&1; echo "demo with change: exit $?"
-cd /verif
+cd ${VERIF_DIR:-/verif}
 cp evidence/$PID.json $WT/.evidence.json 2>/dev/null
 PYDL_SRC=$WT bin/check $PID --tier $TIER > $WT/.check.log 2>&1; RC=$?
 echo "check $PID ($TIER) with change: exit $RC, $(grep -c '^VIOLATION' $WT/.check.log) VIOLATION lines"
@@ -18,4 +18,4 @@ grep -A1 '^VIOLATION' $WT/.check.log | grep -v '^VIOLATION\|^--' | head -3 | cut
 tail -1 $WT/.check.log | cut -c1-200
 cp $WT/.evidence.json evidence/$PID.json 2>/dev/null   # evidence stays that of the unchanged tree
 git -C /repo worktree remove --force $WT
-rm -rf /verif/replays/$PID
+rm -rf ${VERIF_DIR:-/verif}/replays/$PID
